@@ -133,6 +133,42 @@ impl<'a> B<'a> {
     }
 }
 
+impl<'a> B<'a> {
+    /// C09 at real distances: a direct handle minted now must be rejected after 1, 2^8, 2^16, 2^20
+    /// and 2^24 removals from its archetype (really performed: the version is compared in full),
+    /// while a handle minted after the last removal is accepted and designates its entity.
+    fn direct_distance(&mut self) {
+        self.w = None;
+        self.pool.clear();
+        let mut w = BigW::new();
+        let keep = w.create::<Big>((Byte(7),));
+        let mut victim = w.create::<Big>((Byte(9),));
+        let old = w.to_direct(keep).unwrap();
+        let old_any = w.to_direct(keep.into_any()).unwrap();
+        let mut removals: u64 = 0;
+        let mut accepted_stale = 0usize;
+        let mut refused_fresh = 0usize;
+        let mut checked = 0usize;
+        for target in [1u64, 2, 255, 256, 257, 65535, 65536, 65537, 1 << 20, (1 << 24) - 1, 1 << 24, (1 << 24) + 1, (1 << 24) + 256] {
+            while removals < target {
+                w.destroy(victim);
+                victim = w.create::<Big>((Byte(removals as u8),));
+                removals += 1;
+            }
+            checked += 1;
+            if w.contains(old) || w.contains(old_any) || w.to_direct(old).is_some() || w.big.contains(old)
+                || ecs_find!(w, old, |b: &Byte| b.0).is_some() || ecs_find_borrow!(w, old_any, |b: &Byte| b.0).is_some() {
+                accepted_stale += 1;
+            }
+            let fresh = w.to_direct(keep).unwrap();
+            if !w.contains(fresh) || ecs_find!(w, fresh, |b: &Byte| b.0) != Some(7) { refused_fresh += 1; }
+        }
+        self.w = Some(w);
+        self.emit(vec![("op", J::s("direct_distance")), ("removals", ji(removals as usize)), ("checked", ji(checked)),
+                       ("accepted_stale", ji(accepted_stale)), ("refused_fresh", ji(refused_fresh))]);
+    }
+}
+
 pub fn run(out: &mut dyn Write, thorough: bool) {
     let mut b = B { w: None, out, pool: Vec::new() };
     writeln!(b.out, "{}", J::O(vec![("op", J::s("decl")), ("max", ji(MAX)), ("debug", J::B(cfg!(debug_assertions)))]).to_line()).unwrap();
@@ -159,6 +195,7 @@ pub fn run(out: &mut dyn Write, thorough: bool) {
     b.fill(true, MAX);
     b.destroy_many(10);
     b.fill(true, 11);
+    b.direct_distance();
     // organic growth from nothing through every growth step up to the limit
     b.with_capacity(0);
     b.fill(false, MAX + 5);
